@@ -37,12 +37,13 @@ def _one(ctx, cases, mode, seed, label, st, oracle_props):
     case_hdr = {}
     oracle_lines = []
     case_no = -1
+    n_probes = 0
     for l in p.stdout.splitlines():
         if l.startswith("# case "):
             case_no += 1; case_hdr[case_no] = l[2:]; continue
         if l.startswith("# "):
             k = l[2:].split(" ", 1)
-            if k[0] in ("ops", "get-variants", "overflow", "branches", "summary") and len(k) == 2:
+            if k[0] in ("ops", "get-variants", "overflow", "branches", "summary", "probes") and len(k) == 2:
                 st.setdefault("harness_counters", {}).setdefault(k[0], []).append(k[1])
             continue
         if l.startswith("pool-new"):
@@ -50,10 +51,18 @@ def _one(ctx, cases, mode, seed, label, st, oracle_props):
         if l.startswith("oracle "):
             _, prop, msg = l.split(" ", 2)
             oracle_lines.append((case_no, prop, msg, len(case_lines[case_no]))); continue
+        if l.startswith("probe "):
+            # deterministic probe of the pop-or-create critical section (implementation only, nothing to replay)
+            case_lines[case_no].append(l); n_probes += 1
+            st.setdefault("probe_verdicts", collections.Counter())[l.rpartition(" => ")[2]] += 1
+            continue
         if (l.startswith("op ") or l.startswith("q ")) and " => " in l:
             q, _, r = l.partition(" => ")
             queries.append(q); expected.append(r); meta.append(case_no); case_lines[case_no].append(l)
-    rc, dout, derr = run_driver("pool", "\n".join(queries) + "\n")
+    if queries:
+        rc, dout, derr = run_driver("pool", "\n".join(queries) + "\n")
+    else:
+        rc, dout, derr = 0, "", ""
     answers = dout.splitlines()
     if rc != 0 or len(answers) != len(queries):
         ctx.add_ob(f"run:driver-pool-{label}", "build", False, f"driver rc={rc}: {len(answers)} answers for {len(queries)} queries\n{derr[-1500:]}")
@@ -82,7 +91,9 @@ def _one(ctx, cases, mode, seed, label, st, oracle_props):
             ctx.oracle_failures.append({"engine": "pool", "mode": mode, "case": case_hdr.get(cn, "?"), "property": prop, "message": msg,
                                         "history": case_lines[cn][:max(upto, 1)][-60:],
                                         "replay": replay_cmd + f"   # case {cn}" + ("" if mode == "single" else " (thread schedule is not reproducible; the history is the observed linearisation)")})
-    ctx.evaluations += n_ops
+    ctx.evaluations += n_ops + n_probes
+    if n_probes:
+        st["probes"] = st.get("probes", 0) + n_probes
     for cn, ls in case_lines.items():
         body = "\n".join(x for x in ls[1:])
         if len(ls) > 3:
@@ -95,7 +106,8 @@ def _one(ctx, cases, mode, seed, label, st, oracle_props):
 
 
 def run_pool(ctx, cases, mode, seed_offset=0, label=None, oracle_props=None):
-    """mode: single (one thread holding many guards, reproducible) | threads (2–16 threads) | mixed.  Returns True if it ran."""
+    """mode: single (one thread holding many guards, reproducible) | threads (2–16 threads) | mixed |
+    probe (`cases` deterministic probes of the pop-or-create critical section PER get variant).  Returns True if it ran."""
     oracle_props = oracle_props or [ctx.prop]
     label = label or mode
     cases = cases * min(ctx.scale(), 4)     # change-directed deepening
@@ -116,6 +128,8 @@ def run_pool(ctx, cases, mode, seed_offset=0, label=None, oracle_props=None):
         if len([f for f in ctx.oracle_failures if not f.get("known")]) >= 20:
             break
     # keep only the last chunk's counters readable
+    if "probe_verdicts" in st:
+        st["probe_verdicts"] = dict(st["probe_verdicts"])
     hc = st.get("harness_counters")
     if hc:
         st["harness_counters"] = {key: (v if len(v) <= 2 else [v[0], f"... {len(v) - 2} more chunks ...", v[-1]]) for key, v in hc.items()}
